@@ -753,6 +753,10 @@ impl super::MainState {
                     let is_only_half_oper = user_chum.is_only_half_operator();
                     for kick_user in &kick_users {
                         let ku = kick_user.to_string();
+                        if kicked.contains(&kick_user) {
+                            // already chosen to kick - kick only once
+                            continue;
+                        }
                         if let Some(chum) = chanobj.users.get(&ku) {
                             if !chum.is_protected()
                                 && (!chum.is_half_operator() || !is_only_half_oper)
@@ -804,15 +808,18 @@ impl super::MainState {
             for ku in &kicked {
                 state.remove_user_from_channel(channel, ku);
             }
-            let chanobj = state.channels.get(channel).unwrap();
+            // channel can be not found or removed if last user has been kicked
+            let chanobj = state.channels.get(channel);
             for ku in &kicked {
                 let kick_msg = format!("KICK {} {} :{}", channel, ku, comment.unwrap_or("Kicked"));
-                for nick in chanobj.users.keys() {
-                    state
-                        .users
-                        .get(nick)
-                        .unwrap()
-                        .send_msg_display(&conn_state.user_state.source, kick_msg.clone())?;
+                if let Some(chanobj) = chanobj {
+                    for nick in chanobj.users.keys() {
+                        state
+                            .users
+                            .get(nick)
+                            .unwrap()
+                            .send_msg_display(&conn_state.user_state.source, kick_msg.clone())?;
+                    }
                 }
                 // and send to kicked user
                 state
